@@ -31,9 +31,9 @@ Definition pos_call (LF : Z) (s : store) (N : list positive) (p q : nat) : store
        end.
 
 Theorem pos_call_spec LF s N p q s' r : 1 <= LF -> Inv s -> (p <= q <= length (abs s))%nat ->
-  NoDup N -> (forall t, In t N -> ~ In t (abs s)) ->
+  NoDup N -> (forall t, In t N -> free s t) ->
   pos_call LF s N p q = (s', r) ->
-  r = Ok tt /\ Inv s' /\ abs s' = gsplice (abs s) N p q /\ (forall t, txt s' t = txt s t).
+  r = Ok tt /\ Inv s' /\ abs s' = gsplice (abs s) N p q /\ (forall t, txt s' t = txt s t) /\ frames s s' N p q.
 Proof.
   intros HLF II Hpq ND Hf H. unfold pos_call in H. destruct (Nat.ltb_spec p q) as [L|L].
   - destruct (nth_error (abs s) p) as [a|] eqn:Ea; [|apply nth_error_None in Ea; lia].
@@ -125,16 +125,16 @@ Proof.
 Qed.
 
 (* ---------- Builder.v: the store a ModelBuilder fills, and the spans read back from it ---------- *)
-Theorem link_builder_store LF tk built : 1 <= LF -> clean tk -> NoDup built ->
-  let s' := fst (insert_after LF (empty_store tk) None built) in
-  insert_after LF (empty_store tk) None built = (s', Ok tt) /\ Inv s' /\ abs s' = built /\
+Theorem link_builder_store LF sid tk built : 1 <= LF -> clean tk -> NoDup built ->
+  let s' := fst (insert_after LF (empty_store sid tk) None built) in
+  insert_after LF (empty_store sid tk) None built = (s', Ok tt) /\ Inv s' /\ abs s' = built /\
   (forall k1 k2 a b, nth_error built k1 = Some a -> nth_error built k2 = Some b -> (k1 <= k2)%nat ->
      iter_range s' a b = Ok (firstn (k2 + 1 - k1) (skipn k1 built))).
 Proof.
-  intros HLF Hc ND s'. destruct (insert_after LF (empty_store tk) None built) as [s1 r1] eqn:H. cbn [fst] in s'. subst s'.
-  destruct (empty_inv tk Hc) as [I0 E0].
-  assert (forall t, In t built -> ~ In t (abs (empty_store tk))) as Hfresh by (intros t _; rewrite E0; intros []).
-  destruct (insert_after_spec LF (empty_store tk) built None 0 s1 r1 HLF I0 eq_refl ND Hfresh H) as (-> & I' & Ea & _).
+  intros HLF Hc ND s'. destruct (insert_after LF (empty_store sid tk) None built) as [s1 r1] eqn:H. cbn [fst] in s'. subst s'.
+  destruct (empty_inv sid tk Hc) as [I0 E0].
+  assert (forall t, In t built -> free (empty_store sid tk) t) as Hfresh by (intros t _; apply (proj1 Hc)).
+  destruct (insert_after_spec LF (empty_store sid tk) built None 0 s1 r1 HLF I0 eq_refl ND Hfresh H) as (-> & I' & Ea & _).
   rewrite E0 in Ea. unfold list_splice in Ea. cbn in Ea. rewrite app_nil_r in Ea.
   split; [reflexivity|]. split; [exact I'|]. split; [exact Ea|].
   intros k1 k2 a b Ha Hb Hk. rewrite <- Ea in *. apply (proj1 (proj2 (proj2 (proj2 (proj2 (proj2 (observers_spec s1 I'))))))); assumption.
